@@ -318,6 +318,12 @@ func (p *producer) buildTx(o Op, extraAttrs []transaction.Attribute) (tx *transa
 		if o.X == 0 {
 			amount = 0
 		}
+		if o.Y%8 == 6 && o.Kind == OpTransferNEO {
+			// the whole balance: the account's record (and with it its vote) disappears
+			if bal, _ := bc.GetGoverningTokenBalance(a.ScriptHash()); bal != nil && bal.Sign() > 0 && bal.IsInt64() {
+				amount = bal.Int64()
+			}
+		}
 		script = callScript(tok, "transfer", a.ScriptHash(), p.kr.acctHash(o.B), amount, nil)
 		desc = fmt.Sprintf("%s a%d->a%d %d", opNames[o.Kind], o.A, o.B%numAccounts, amount)
 		if o.Y%8 == 7 {
